@@ -540,6 +540,34 @@ def real_dataset_checks(tier):
             V('real:ugrid:corrected-in-place', 'a single edit of a geometry variable changes the cache key', 'face_edge edited in place on the corrected mesh')
     except Exception as e:
         V('real:ugrid:corrected-in-place', 'a corrected mesh can be keyed', f'{type(e).__name__}: {e}')
+    # names are compared exactly: two spellings of the same text (precomposed / decomposed characters) are two names
+    import unicodedata
+    for conv in ('cf1d', 'ugrid'):
+        ds = _dataset(conv)
+        g = list(ds.copy().ems.get_all_geometry_names())[0] if conv != 'ugrid' else 'node_x'
+        a_name, b_name = 'szeroko\u015b\u0107_' + str(g), unicodedata.normalize('NFD', 'szeroko\u015b\u0107_' + str(g))
+        try:
+            da, db = ds.rename({g: a_name}), ds.rename({g: b_name})
+            for d, nm in ((da, a_name), (db, b_name)):
+                for v in d.variables.values():
+                    for k_, val in list(v.attrs.items()):
+                        if isinstance(val, str) and str(g) in val.split():
+                            v.attrs[k_] = ' '.join(nm if w == str(g) else w for w in val.split())
+            ka, kb = key_of(da), key_of(db)
+            if a_name != b_name and ka == kb:
+                V(f'real:{conv}:equivalent-spellings', 'a change of the name of a geometry variable changes the cache key', 'precomposed vs decomposed spelling')
+        except Exception as e:
+            notes.append(f'{conv}: unicode names not applicable ({type(e).__name__}: {str(e)[:80]})')
+    # a mesh whose tables are stored (nodes per face, faces): every optional table is still part of the key
+    tmesh = builders.ugrid('tqp', supply=('edge_node', 'face_edge', 'face_face'), fill='nan', transposed=True)
+    names_t = set(tmesh.copy().ems.get_all_geometry_names())
+    if not {'face_edge', 'face_face', 'edge_node'} <= names_t:
+        V('real:ugrid:transposed-tables', 'every supplied connectivity table is a geometry variable', f'{sorted(map(str, names_t))}')
+    for tbl in ('face_edge', 'face_face', 'edge_node'):
+        ed = tmesh.copy(deep=True)
+        ed[tbl].attrs['comment'] = 'edited'
+        if key_of(ed) == key_of(tmesh):
+            V('real:ugrid:transposed-tables', 'a single edit of a geometry variable changes the cache key', f'{tbl} attribute edited on a mesh stored transposed')
     # the key of a SHOC dataset does not depend on what other datasets were opened with earlier in the process
     from emsarray.conventions.arakawa_c import ArakawaCGridKind as K
     from emsarray.conventions.shoc import ShocStandard
